@@ -49,11 +49,24 @@ def env_offline(extra=None):
 
 
 def sync_lock():
-    """the harness crates resolve against /repo's own lock file (copied on every run)"""
+    """Snapshot the harness crates for this run (so that editing /verif while a check runs cannot
+    disturb it) and give them /repo's own lock file.  /repo itself is NOT copied: the crates depend
+    on it by absolute path, so every build sees /repo's current working tree."""
+    global CRATE, REPLAY_CRATE
+    snap = os.path.join(CACHE, "src", str(os.getpid()))
+    shutil.rmtree(snap, ignore_errors=True)
+    os.makedirs(snap)
+    ign = shutil.ignore_patterns("target", "Cargo.lock")
+    shutil.copytree(os.path.join(VERIF, "kani"), os.path.join(snap, "kani"), ignore=ign)
+    shutil.copytree(os.path.join(VERIF, "replay"), os.path.join(snap, "replay"), ignore=ign)
+    CRATE = os.path.join(snap, "kani")
+    REPLAY_CRATE = os.path.join(snap, "replay")
     src = "/repo/Cargo.lock"
     if os.path.exists(src):
         for c in (CRATE, REPLAY_CRATE):
             shutil.copy(src, os.path.join(c, "Cargo.lock"))
+    import atexit
+    atexit.register(lambda: shutil.rmtree(snap, ignore_errors=True))
 
 
 def goto_functions(binf):
@@ -84,15 +97,33 @@ def seed_target(features, any_harness):
         sdir = os.path.join(CACHE, "kt", "_seed_" + features.replace(",", "_"))
         os.makedirs(sdir, exist_ok=True)
         cmd = ["cargo", "kani"] + KFLAGS + ["--features", features, "--target-dir", sdir, "--harness", "seed_noop", "--only-codegen"]
-        p = subprocess.run(cmd, cwd=CRATE, env=env_offline(), capture_output=True, text=True)
+        with seed_flock(features):
+            p = subprocess.run(cmd, cwd=CRATE, env=env_offline(), capture_output=True, text=True)
         _seeded[features] = (sdir, p.returncode, p.stdout + p.stderr)
         return _seeded[features]
+
+
+class seed_flock:
+    """inter-process lock on a seed target dir (several property runs may share the cache)"""
+    def __init__(self, features):
+        os.makedirs(os.path.join(CACHE, "kt"), exist_ok=True)
+        self.path = os.path.join(CACHE, "kt", "_seed_" + features.replace(",", "_") + ".lock")
+
+    def __enter__(self):
+        import fcntl
+        self.f = open(self.path, "w")
+        fcntl.flock(self.f, fcntl.LOCK_EX)
+
+    def __exit__(self, *a):
+        import fcntl
+        fcntl.flock(self.f, fcntl.LOCK_UN)
+        self.f.close()
 
 
 def run_harness(harness, features, loops=None, timeout=900, mem_gb=14, playback=False, keep=False, tag=""):
     """returns dict(verdict, failed=[...], covers={...}, stats={...}, log=path)"""
     loops = loops or {}
-    tdir = os.path.join(CACHE, "kt", harness + tag)
+    tdir = os.path.join(CACHE, "kt", f"{harness}{tag}.{os.getpid()}")
     logdir = os.path.join(CACHE, "logs")
     os.makedirs(logdir, exist_ok=True)
     log = os.path.join(logdir, harness + tag + (".pb" if playback else "") + ".log")
@@ -106,7 +137,8 @@ def run_harness(harness, features, loops=None, timeout=900, mem_gb=14, playback=
         res["reason"] = "harness crate does not compile against /repo: " + (errs[0] if errs else "?")[:300]
         return res
     if not os.path.isdir(tdir):
-        shutil.copytree(sdir, tdir, symlinks=True)
+        with seed_flock(features):
+            shutil.copytree(sdir, tdir, symlinks=True)
     try:
         return _run(harness, features, loops, timeout, mem_gb, playback, tdir, log, res, t0)
     finally:
@@ -310,7 +342,7 @@ def parse_log(log, res):
 
 
 def cleanup(harness, tag=""):
-    shutil.rmtree(os.path.join(CACHE, "kt", harness + tag), ignore_errors=True)
+    shutil.rmtree(os.path.join(CACHE, "kt", f"{harness}{tag}.{os.getpid()}"), ignore_errors=True)
 
 
 # ---------------------------------------------------------------------------------------------
